@@ -12,7 +12,13 @@ def run(tier, seed):
 
     from contracts import lemmas
 
-    t1 = run_cases(leaf.specs(("write", "read", "roundtrip", "reject"), tier) + lemmas.specs(tier))
+    from contracts import exprs
+
+    # every type "that can be defined": array classes are built by _make_array (element type identity and size over call
+    # histories), array lengths by Expression.evaluate (operator tables, operand order, associativity)
+    t1 = run_cases(leaf.specs(("write", "read", "roundtrip", "reject"), tier) + lemmas.specs(tier)
+                   + [("contracts.cstructfns", "make_fn", ("make_array_identity",))]
+                   + [("contracts.exprs", "make_expr", (w,)) for w in ("tables", "evaluate_exp", "precedence", "rewrite-idempotent")] + exprs.shape_specs(tier))
     rep.add_case_results(t1, "T1")
     progs = programs_for(tier, seed)
     run_pipeline(rep, progs, ["C01"])
